@@ -1881,6 +1881,11 @@ def decompress(file_obj, file_type):
 
     if file_type.endswith("zip"):
         archive = zipfile.ZipFile(file_obj)
+        for info in archive.infolist():
+            # member data sits in front of the central directory: a corrupt
+            # size field would make `read` request that many bytes up front
+            if info.header_offset + info.compress_size > archive.start_dir:
+                raise ValueError(f"archive member `{info.filename}` is larger than the archive!")
         return {name: wrap_as_stream(archive.read(name)) for name in archive.namelist()}
     if file_type.endswith("bz2"):
         import bz2
